@@ -100,3 +100,86 @@ Definition check_t2 (c : case) : N := t2_go 1 [] meter0 (c_ops c) (c_exp c).
 End T2.
 
 Definition check_t2_window := check_t2 tol_window.
+
+(* ---- C03: oscillators against their exact formulas, tolerance tau * c * natural scale, c = condition number ---- *)
+Definition xfin (x : XQ) : option Q := match x with QFin q => Some q | _ => None end.
+Definition qle (a b : Q) : bool := Qle_bool a b.
+Definition cnum (M den : Q) : option Q :=        (* max(1, M/|den|), None when den = 0 *)
+  if Qeq_bool den 0 then None else Some (qmax 1 (M / Qabs den)).
+
+(* condition number of the last output of the exact instance, from its state after the step and the op's input;
+   None = not claimed here (degenerate window, or an oscillator whose conditioning needs the whole history) *)
+Definition osc_cond (s : @St XQ) (M flowmax cumvol : Q) (inp : @op XQ) (exact : list XQ) : option (Q * Q) :=  (* (c, scale) *)
+  match s, exact with
+  | SRsi r, [QFin _] =>
+      match xfin (ema_current (rsi_up r)), xfin (ema_current (rsi_down r)) with
+      | Some u, Some d => match cnum M (u + d) with Some c => Some (c, 100) | None => None end
+      | _, _ => None end
+  | SFast f, [QFin _] =>
+      let mn := nth (N.to_nat (min_min_index (fast_minimum f))) (min_deque (fast_minimum f)) QNaN in
+      let mx := nth (N.to_nat (max_max_index (fast_maximum f))) (max_deque (fast_maximum f)) QNaN in
+      match xfin mn, xfin mx with
+      | Some a, Some b => match cnum M (b - a) with Some c => Some (c, 100) | None => Some (1, 0) end   (* flat: exactly 50 *)
+      | _, _ => None end
+  | SRoc _, [QFin e] =>
+      match inp with
+      | ONext _ (QFin x) | OBar _ {| b_close := QFin x |} | OItem _ {| b_close := QFin x |} =>
+          if Qeq_bool (100 + e) 0 then None
+          else match cnum M (x * 100 / (100 + e)) with Some c => Some (c, 100) | None => None end
+      | _ => None end
+  | SPpo p, QFin _ :: _ =>
+      match xfin (ema_current (ppo_slow p)) with
+      | Some sl => match cnum M sl with Some c => Some (c, 100) | None => None end
+      | None => None end
+  | SMfi m, [QFin _] =>
+      match xfin (mfi_pos m), xfin (mfi_neg m) with
+      | Some a, Some b =>
+          if qle (a + b) 0 then None else
+          let c := qmax 1 (flowmax / (a + b)) in if qle c 1000 then Some (c, 100) else None
+      | _, _ => None end
+  | SObv _, [QFin _] => Some (1, qmax cumvol 1)
+  | SCci c, [QFin e] =>
+      if Qeq_bool e 0 then None else
+      match inp, xfin (sma_sum (cci_sma c)) with
+      | OBar _ b, Some sm | OItem _ b, Some sm =>
+          match xfin (xq_div (xq_add (xq_add (b_close b) (b_high b)) (b_low b)) (QFin 3)) with
+          | Some tp =>
+              let sma := sm / (Z.of_N (sma_count (cci_sma c)) # 1) in
+              let den := (tp - sma) / e in        (* = 0.015 * MAD *)
+              match cnum M den with Some c => if qle c 1000000 then Some (c, 200 # 3) else None | None => None end
+          | None => None end
+      | _, _ => None end
+  | _, _ => None
+  end.
+
+Record meter3 := mkM3 { q_t : N; q_mag : Q; q_flow : Q; q_cum : Q }.
+
+Fixpoint t3_go (k : N) (st : @store XQ) (mt : meter3) (ops : list (@op float)) (exp : list fobs) : N :=
+  match ops, exp with
+  | o :: ops, e :: exp =>
+      let qo := qop o in
+      let '(st', ob) := step XQOps st qo in
+      let mt' := match qo with
+                 | ONext _ _ => mkM3 (q_t mt + 1) (qmax (q_mag mt) (mag_of_op qo)) (q_flow mt) (q_cum mt)
+                 | OBar _ b | OItem _ b =>
+                     let tp := qabs_of (xq_div (xq_add (xq_add (b_close b) (b_high b)) (b_low b)) (QFin 3)) in
+                     let v := qabs_of (b_volume b) in
+                     mkM3 (q_t mt + 1) (qmax (q_mag mt) (mag_of_op qo)) (qmax (q_flow mt) (tp * v)) (q_cum mt + v)
+                 | OReset _ | ONew _ _ _ | ODef _ _ => mkM3 0 (q_mag mt) 0 0
+                 | _ => mt end in
+      let ok := match ob, e with
+                | BOut exact, BOut impl =>
+                    match sget st' 0 with
+                    | Some s =>
+                        match osc_cond s (q_mag mt') (q_flow mt') (q_cum mt') qo exact, exact, map f2xq impl with
+                        | Some (c, sc), ex :: _, im :: _ =>
+                            if Qeq_bool sc 0 then within im ex 0          (* flat FastStochastic: the literal 50 *)
+                            else within im ex (tau (q_t mt') * c * sc)
+                        | _, _, _ => true end
+                    | None => true end
+                | _, _ => true end in
+      if ok then t3_go (k + 1) st' mt' ops exp else k
+  | _, _ => 0%N
+  end.
+
+Definition check_t2_osc (c : case) : N := t3_go 1 [] (mkM3 0 0 0 0) (c_ops c) (c_exp c).
